@@ -117,6 +117,10 @@ def sub_family(mode: str, version: int, thorough: bool = False) -> List[Tuple[st
         {"f": _sub([("val", "a"), ("ref", "p"), ("val", "b")], "u",
                    ("Seq", ("PStore", "p", ("Bin", "Add", ("PLoad", "p"), ("Param", "a"))), ("Bin", "Minus", ("Param", "a"), ("Param", "b"))))},
         {"v": {"t": "u"}})
+    # ---- a by-reference parameter handed on by reference (two routine levels)
+    from .gen_slots import byref_forward_family
+    for (nm, rec, _needed, _dup) in (byref_forward_family(mode, version) if version >= 5 else []):
+        out.append(("sub:" + nm.split(":", 1)[1], rec, {}))
     # ---- mutual recursion, same and different result kinds / arities
     Q = ("Param", "m")
     decm = ("Bin", "Minus", Q, ("Int", 1))
